@@ -282,6 +282,3 @@ def run(chk):
                 chk.sample({'op': 'geom', 'kind': k, 'family': r.family, 'args': r.inp[1:], 'impl': r.res, 'model_exact': m[:fi][:4]})
     chk.extra_cov['skipped_ill_conditioned_or_borderline'] = skipped
     chk.extra_cov['float_model_vs_impl_max_ulps'] = maxulp
-    if chk.unparsed and not chk.violations:
-        chk.soft.append('Geom fragment unparsed (%s); implementation-vs-Ref correspondence agrees on all %d records' % (chk.gen.get('Geom', {}).get('why'), chk.evaluations))
-        chk.obligations = [o for o in chk.obligations if o['module'] != 'MVoro.Obl.Geom']
